@@ -26,9 +26,10 @@ def evaluate(text):
             v = eval(text, {'__builtins__': {}}, dict(env))
             if isinstance(v, bool) or not isinstance(v, (int, float)):
                 return False, [0, 0]
-            if float(v) != int(v):
+            # the spec's Den(.) is twice the value (every value of the alphabet is a multiple of 1/2)
+            if float(2 * v) != int(2 * v):
                 return False, [0, 0]
-            vals.append(int(v))
+            vals.append(int(2 * v))
     except Exception:
         return False, [0, 0]
     return True, vals
@@ -192,7 +193,7 @@ def run(rep):
                 '(Start kind x lead, then <= MaxTerms AddTerm forms; or one Join of a list <= MaxJoin); '
                 'distinct = distinct behaviour JSON; non-trivial = at least one AddTerm / a list of >= 2 elements')
     rep.exhaustive = True
-    rep.assumptions = ['values are compared on two fixed integer valuations (quotients integral in both)',
+    rep.assumptions = ['values are compared on two fixed integer valuations (every value a multiple of 1/2 in both; the spec carries twice the value)',
                       'TLC 1.8 / tla2tools; Python eval of the rendered right-hand side']
     seen = set()
     for cfg in cfgs:
